@@ -161,7 +161,7 @@ Section C05_maintenance.
   Variable id_secure : N -> bytes -> bool.
   Variable cfg : config.
   Variable now : Z.
-  Variable answers : node -> bool.
+  Variable answers : node -> ping_outcome.
   Variable refresh : nat -> list node -> list node.
 
   Theorem C05_maint_pass_keeps_structure nodes :
